@@ -441,6 +441,10 @@ func drawCase(t *rapid.T) Case {
 		if rapid.IntRange(0, 2).Draw(t, "anon") != 0 {
 			s.Named = rapid.SampledFrom(namedKinds).Draw(t, "named")
 			s.Index = rapid.IntRange(0, 11).Draw(t, "index")
+		} else if prev := lastAnon(cs.Subjects); prev != nil && rapid.IntRange(0, 3).Draw(t, "twin") == 0 {
+			// a second type with the same fields, kinds and order as an earlier one but other
+			// json tags: the two are convertible to each other, only the tags tell them apart
+			s.Type = retag(prev)
 		} else {
 			s.Type = tyx.DrawType(t, 2)
 			if rapid.IntRange(0, 4).Draw(t, "keepbytes") != 0 {
@@ -452,6 +456,38 @@ func drawCase(t *rapid.T) Case {
 		cs.Subjects = append(cs.Subjects, s)
 	}
 	return cs
+}
+
+func lastAnon(ss []Subject) *tyx.TypeR {
+	for i := len(ss) - 1; i >= 0; i-- {
+		if ss[i].Named == "" && ss[i].Type != nil {
+			return ss[i].Type
+		}
+	}
+	return nil
+}
+
+var tagName = regexp.MustCompile(`json:"([^",-][^",]*)`)
+
+// retag copies a recipe (values included) and gives every field another key: named tags are
+// renamed, untagged fields get a tag.
+func retag(t *tyx.TypeR) *tyx.TypeR {
+	out := &tyx.TypeR{}
+	for i, f := range t.Fields {
+		g := f
+		switch {
+		case g.Kind == "emb" || g.Kind == "pemb":
+		case tagName.MatchString(g.Tag):
+			g.Tag = tagName.ReplaceAllString(g.Tag, `json:"${1}_r`)
+		case g.Tag == "":
+			g.Tag = fmt.Sprintf(`json:"r%d"`, i)
+		}
+		if g.Sub != nil {
+			g.Sub = retag(g.Sub)
+		}
+		out.Fields = append(out.Fields, g)
+	}
+	return out
 }
 
 func noBytes(t *tyx.TypeR) {
